@@ -199,5 +199,8 @@ pub fn contract_nanos_to_time(n: u64, h: u32, m: u32, s: u32) -> bool {
 pub fn contract_spec_rd_bound(y: i32, m: u32, d: u32, r: i64) -> bool {
     let a = astro(y);
     let mag = if a < 0 { -a } else { a };
-    r - d as i64 >= -366 * (mag + 2) && r - d as i64 <= 366 * (mag + 2)
+    let rel = r - d as i64;
+    rel >= -366 * (mag + 2) && rel <= 366 * (mag + 2)
+        && (a < 1 || rel >= 365 * (a - 1) - 1)
+        && (a > 0 || rel <= 365 * (a - 1) + 335)
 }
